@@ -103,3 +103,35 @@ pub fn check_paging<I: Clone + PartialEq + Debug, C: Clone>(
     }
     Ok(())
 }
+
+
+/// A cursor taken from an earlier page may no longer be an item (the item left between two pages): the next
+/// page is still "everything after the cursor". `stale` are keys that are valid cursors but not current items.
+pub fn check_stale_cursors<I: Clone + PartialEq + Debug, C: Clone + Ord + Debug>(
+    expected: &[I],
+    fetch: &dyn Fn(Option<C>, Option<u32>) -> Result<Vec<I>, bool>,
+    cursor: &dyn Fn(&I) -> C,
+    stale: &[C],
+) -> Result<(), (String, String)> {
+    for c in stale {
+        if expected.iter().any(|i| cursor(i) == *c) {
+            continue;
+        }
+        for lim in [Some(2u32), None] {
+            let eff = lim.map(|l| l as usize).unwrap_or(DEFAULT_LIMIT).min(MAX_LIMIT);
+            let want: Vec<I> = expected.iter().filter(|i| cursor(i) > *c).take(eff).cloned().collect();
+            match fetch(Some(c.clone()), lim) {
+                Ok(page) => {
+                    if page != want {
+                        return Err((
+                            "page-after-stale-cursor".into(),
+                            format!("cursor {:?} (no longer / not an item), limit {:?}: page {:?}, expected {:?}", c, lim, page, want),
+                        ));
+                    }
+                }
+                Err(abort) => return Err((if abort { "query-abort".into() } else { "query-error".into() }, format!("cursor {:?}: list query failed", c))),
+            }
+        }
+    }
+    Ok(())
+}
